@@ -35,7 +35,7 @@ def run(case, ctx: Ctx, chooser: Chooser):
     res, mon = wfcase.run_case(case, ctx, chooser)
     W = case["W"]
     n_edges = sum(len(c["refs"]) for c in W["components"])
-    full = {"W": W, "script": case["script"], "memo": case.get("memo", []), "late": case.get("late") or {}, "lockpass": case.get("lockpass") or [],
+    full = {"W": W, "script": case["script"], "memo": case.get("memo", []), "late": case.get("late") or {}, "lockpass": case.get("lockpass") or [], "pauses": case.get("pauses") or [],
             "choices": list(chooser.log)}
     if mon.violations:
         sig, msg = mon.violations[0]
@@ -46,7 +46,10 @@ def run(case, ctx: Ctx, chooser: Chooser):
                   "has-aggregator" if any(c["aggregate"] for c in W["components"]) else "no-aggregator",
                   "has-replication" if any(c["replicate"] for c in W["components"]) else "no-replication",
                   "has-failure-script" if case["script"] else "all-success",
-                  "outcome:" + (res.stage_outcomes[-1]["outcome"] if res.stage_outcomes else "none"))
+                  "outcome:" + (res.stage_outcomes[-1]["outcome"] if res.stage_outcomes else "none"),
+                  "never-paused" if not case.get("pauses") else
+                  "paused:finished-components-postponed" if any(e[0] == "wake_up" and e[2] for e in res.pause_log) else
+                  "paused:slept" if any(e[0] == "wake_up" for e in res.pause_log) else "paused:run-over-before")
     if res.kernel_errors:
         ctx.rec.label("callback-exceptions")
     if n_edges and mon.concurrent_launch and not res.aborted:
